@@ -702,3 +702,5 @@ seed("n-c19-dx-inline", "C19", ME1, "            let dx = self.nodes[ node + 1 ]
 seed("n-c06-walk-var-rename", "C06", SP, "        for j in 0..self.cols {\n            for k in self.col_start[ j ]..self.col_start[ j + 1 ] {\n                triplets.push( ( self.row_index[ k ], j, self.val[ k ] ) );", "        for col in 0..self.cols {\n            for p in self.col_start[ col ]..self.col_start[ col + 1 ] {\n                triplets.push( ( self.row_index[ p ], col, self.val[ p ] ) );", "SILENT", "renamed loop variables")
 seed("n-c11-degree-let", "C11", PM, "        let degree = self.degree().unwrap(); //TODO unwrap\n        let mut p = self.coeffs[ degree ];", "        let degree = self.coeffs.len() - 1;\n        let mut p = self.coeffs[ degree ];", "SILENT", "degree().unwrap() <-> len()-1")
 seed("n-c04-index-let", "C04", BD, "        //&self.compact[ i ][ self.m1 + j - i ]\n        &self.compact[ (i, self.m1 + j - i) ]", "        let col = self.m1 + j - i;\n        &self.compact[ (i, col) ]", "SILENT", "let for the compact column")
+
+seed("c10-cardano-lexicographic-sign", "C10", PM, "let base = if ( d1.conj() * sqrt ).real < 0.0 { d1 - sqrt } else { d1 + sqrt } / 2.;", "let base = if d1 < Cmplx::zero() { d1 - sqrt } else { d1 + sqrt } / 2.;", "magnitude", "the original defect")
